@@ -7,7 +7,7 @@ import ast
 import re
 
 from sa import rx
-from sa.model import AnalysisError, walk_no_nested, norm, call_name, stmt_of
+from sa.model import mangle, AnalysisError, walk_no_nested, norm, call_name, stmt_of
 from sa.util import fact_atom, cmp_parts, const_value, contains
 from sa.consteval import TOP
 from .proles import ParserRoles
@@ -378,6 +378,9 @@ def s6(ctx, R):
             return [(fd.Const(None), ("write", args[0] if args else None))]
         if name == "tosieve" and isinstance(recv, fd.Const) and recv.v in TESTS:
             return [(fd.Const(None), ("write", fd.Const("<%s>" % recv.v)))]  # a test of the list prints itself
+        if isinstance(recv, fd.Const) and isinstance(recv.v, str) and recv.v in TESTS and isinstance(e.func, ast.Attribute) and (
+                e.func.attr in R.Command.methods or mangle(R.Command.name, e.func.attr) in R.Command.methods):
+            return [(fd.Const("<%s>" % recv.v), None)]  # ... or hands its text back (a private rendering method)
         if name == "isinstance" and len(args) == 2 and isinstance(args[0], fd.Const) and isinstance(e.args[1], ast.Name) \
                 and ctx.program.cls(e.args[1].id) is not None:
             return [(fd.Const(False), None)]  # a str / list / int constant is not an instance of a class of the package
@@ -420,7 +423,7 @@ def s6(ctx, R):
         env = {"self.args_definition": fd.Const([slot]), "self.arguments": fd.Const({"slot": val}),
                "self.extra_arguments": fd.Const({"slot": extra} if extra is not None else {}), "self.accept_children": fd.Const(False),
                "self.name": fd.Const("cmd"), "indentlevel": fd.Const(indent)}
-        it = fd.Interp(f.node, R.Command.name, oracle, loop_unroll=max(2, len(expect) + 1 if isinstance(expect, list) else 2), max_depth=2,
+        it = fd.Interp(f.node, R.Command.name, oracle, loop_unroll=max(2, len(expect) + 1 if isinstance(expect, list) else 2), max_depth=5,
                        resolve=_mod_resolve)
         try:
             paths = it.run(env)
@@ -473,7 +476,7 @@ def s6(ctx, R):
                 problems.append("writes %r after the text: block instead of a newline" % (nxt,))
             if extra is not None and not text[:i].lower().endswith(":tag "):
                 problems.append("the tag and a space do not precede its parameter (%r)" % (text[:i],))
-        if problems and guessed and len(problems) < len(paths):
+        if problems and guessed and (len(problems) < len(paths) or all(x.startswith("raises ") for x in problems)):
             # not every path shows the problem and some paths rest on a guess: nothing is known about this scenario
             ctx.notice("S6", "%s holding a %s: not followed (%s)" % (what, label, sorted(set(it.unknowns) - {"self.get_type"})[:3]))
             undecided += 1
